@@ -21,6 +21,8 @@ package headers
 
 //@ func trimLeftOWS
 //@   props C14 C17 C18
+//@   local i int
+//@   local sCopy string
 //@   pure
 //@   allocs <= 0
 //@   requires 0 <= n && n < 1000000
@@ -35,6 +37,8 @@ package headers
 
 //@ func trimRightOWS
 //@   props C14 C17 C18
+//@   local i int
+//@   local sCopy string
 //@   pure
 //@   allocs <= 0
 //@   requires 0 <= n && n < 1000000
@@ -71,6 +75,9 @@ package headers
 
 //@ func Check
 //@   props C14 C17 C18
+//@   local acrh string
+//@   local emptyElements int
+//@   local posOfLastNameSeen int
 //@   pure
 //@   allocs <= 0
 //@   requires SetInv(set)
